@@ -24,6 +24,14 @@ static bool _write(binson_writer *writer, bbuf *data);
 /*======= Global function implementations ===================================*/
 
 bool binson_writer_init(binson_writer *writer, uint8_t *buffer, size_t buffer_size)
+VC_REQUIRES(VC_FRESH(writer, sizeof(*writer)))
+VC_ASSIGNS(__CPROVER_object_whole(writer))
+VC_ENSURES(VC_RET == (buffer != NULL))                                                            /*@ writer-init-iff */
+VC_ENSURES(writer->buffer_used == 0)                                                              /*@ writer-init-canonical */
+VC_ENSURES(VC_RET ==> (writer->error_flags == BINSON_ERROR_NONE && writer->buffer == buffer &&
+                       writer->buffer_size == buffer_size))                                        /*@ writer-init-canonical */
+VC_ENSURES(!VC_RET ==> (writer->error_flags == BINSON_ERROR_NULL && writer->buffer == NULL &&
+                        writer->buffer_size == 0))                                                 /*@ writer-init-reject-canonical */
 {
     if (NULL == writer) {
         return false;
@@ -43,6 +51,13 @@ bool binson_writer_init(binson_writer *writer, uint8_t *buffer, size_t buffer_si
 }
 
 bool binson_writer_reset(binson_writer *writer)
+VC_REQUIRES(VC_FRESH(writer, sizeof(*writer)))
+VC_ASSIGNS(writer->buffer_used, writer->error_flags)
+VC_ENSURES(VC_RET == (writer->buffer != NULL && writer->buffer_size >= 2))                        /*@ writer-reset-iff */
+VC_ENSURES(VC_RET ==> (writer->buffer_used == 0 && writer->error_flags == BINSON_ERROR_NONE))     /*@ writer-reset-canonical */
+VC_ENSURES(!VC_RET ==> (writer->buffer_used == VC_OLD(writer->buffer_used) &&
+                        writer->error_flags == ((writer->buffer == NULL) ? BINSON_ERROR_NULL
+                                                                         : BINSON_ERROR_RANGE)))   /*@ writer-reset-reject */
 {
     if (NULL == writer) {
         return false;
@@ -65,6 +80,9 @@ bool binson_writer_reset(binson_writer *writer)
 }
 
 size_t binson_writer_get_counter(binson_writer *writer)
+VC_REQUIRES(VC_FRESH(writer, sizeof(*writer)))
+VC_ASSIGNS()
+VC_ENSURES(VC_RET == writer->buffer_used)                                                         /*@ counter-read-exact */
 {
     return (NULL != writer) ? writer->buffer_used : 0;
 }
@@ -134,6 +152,14 @@ VC_W_ONE_BYTE_CONTRACT(writer, value ? 0x44 : 0x45)                             
 }
 
 bool binson_write_integer(binson_writer *writer, int64_t value)
+VC_REQUIRES(VC_W_PTRS(writer))
+VC_ASSIGNS(VC_W_FRAME(writer))
+VC_ENSURES(VC_W_SAME_CONFIG(writer))
+VC_ENSURES(VC_W_POST_COUNTER(writer, VC_OLD(writer->buffer_used), (size_t) 1 + VC_WIDTH(value)))                       /*@ counter-exact */
+VC_ENSURES(VC_W_POST_ERROR(writer, VC_OLD(writer->buffer_used), VC_OLD(writer->error_flags), (size_t) 1 + VC_WIDTH(value))) /*@ range-iff */
+VC_ENSURES(VC_RET == (writer->error_flags == BINSON_ERROR_NONE))                                  /*@ ret-iff-no-error */
+VC_ENSURES((writer->error_flags == BINSON_ERROR_NONE && vc_j < (size_t) 1 + VC_WIDTH(value)) ==>
+           writer->buffer[VC_OLD(writer->buffer_used) + vc_j] == VC_DESC_BYTE(0x10, value, vc_j)) /*@ integer-canonical */
 {
     binson_value bval;
     bval.integer_value = value;
@@ -141,6 +167,14 @@ bool binson_write_integer(binson_writer *writer, int64_t value)
 }
 
 bool binson_write_double(binson_writer *writer, double value)
+VC_REQUIRES(VC_W_PTRS(writer))
+VC_ASSIGNS(VC_W_FRAME(writer))
+VC_ENSURES(VC_W_SAME_CONFIG(writer))
+VC_ENSURES(VC_W_POST_COUNTER(writer, VC_OLD(writer->buffer_used), 9))                       /*@ counter-exact */
+VC_ENSURES(VC_W_POST_ERROR(writer, VC_OLD(writer->buffer_used), VC_OLD(writer->error_flags), 9)) /*@ range-iff */
+VC_ENSURES(VC_RET == (writer->error_flags == BINSON_ERROR_NONE))                                  /*@ ret-iff-no-error */
+VC_ENSURES((writer->error_flags == BINSON_ERROR_NONE && vc_j == 0) ==>
+           writer->buffer[VC_OLD(writer->buffer_used) + vc_j] == 0x46)                            /*@ double-type-byte */
 {
     binson_value bval;
     bval.double_value = value;
@@ -150,6 +184,17 @@ bool binson_write_double(binson_writer *writer, double value)
 bool binson_write_string_with_len(binson_writer *writer,
                                   const char *value,
                                   size_t length)
+VC_REQUIRES(VC_W_PTRS(writer) && length <= 2147483647 && VC_FRESH(value, length))
+VC_ASSIGNS(VC_W_FRAME(writer))
+VC_ENSURES(VC_W_SAME_CONFIG(writer))
+VC_ENSURES(VC_W_POST_COUNTER(writer, VC_OLD(writer->buffer_used), (size_t) 1 + VC_WIDTH((int64_t) length) + length))                       /*@ counter-exact */
+VC_ENSURES(VC_W_POST_ERROR(writer, VC_OLD(writer->buffer_used), VC_OLD(writer->error_flags), (size_t) 1 + VC_WIDTH((int64_t) length) + length)) /*@ range-iff */
+VC_ENSURES(VC_RET == (writer->error_flags == BINSON_ERROR_NONE))                                  /*@ ret-iff-no-error */
+VC_ENSURES((writer->error_flags == BINSON_ERROR_NONE && vc_j < (size_t) 1 + VC_WIDTH((int64_t) length)) ==>
+           writer->buffer[VC_OLD(writer->buffer_used) + vc_j] == VC_DESC_BYTE(0x14, (int64_t) length, vc_j)) /*@ length-canonical */
+VC_ENSURES((writer->error_flags == BINSON_ERROR_NONE && vc_j < length) ==>
+           writer->buffer[VC_OLD(writer->buffer_used) + 1 + VC_WIDTH((int64_t) length) + vc_j] ==
+           ((const uint8_t *) value)[vc_j])                                                        /*@ payload-verbatim */
 {
     binson_value bval;
     bval.bytes_value.bptr = (const uint8_t *) value;
@@ -158,6 +203,17 @@ bool binson_write_string_with_len(binson_writer *writer,
 }
 
 bool binson_write_bytes(binson_writer *writer, const uint8_t *pbuf, size_t length)
+VC_REQUIRES(VC_W_PTRS(writer) && length <= 2147483647 && VC_FRESH(pbuf, length))
+VC_ASSIGNS(VC_W_FRAME(writer))
+VC_ENSURES(VC_W_SAME_CONFIG(writer))
+VC_ENSURES(VC_W_POST_COUNTER(writer, VC_OLD(writer->buffer_used), (size_t) 1 + VC_WIDTH((int64_t) length) + length))                       /*@ counter-exact */
+VC_ENSURES(VC_W_POST_ERROR(writer, VC_OLD(writer->buffer_used), VC_OLD(writer->error_flags), (size_t) 1 + VC_WIDTH((int64_t) length) + length)) /*@ range-iff */
+VC_ENSURES(VC_RET == (writer->error_flags == BINSON_ERROR_NONE))                                  /*@ ret-iff-no-error */
+VC_ENSURES((writer->error_flags == BINSON_ERROR_NONE && vc_j < (size_t) 1 + VC_WIDTH((int64_t) length)) ==>
+           writer->buffer[VC_OLD(writer->buffer_used) + vc_j] == VC_DESC_BYTE(0x18, (int64_t) length, vc_j)) /*@ length-canonical */
+VC_ENSURES((writer->error_flags == BINSON_ERROR_NONE && vc_j < length) ==>
+           writer->buffer[VC_OLD(writer->buffer_used) + 1 + VC_WIDTH((int64_t) length) + vc_j] ==
+           ((const uint8_t *) pbuf)[vc_j])                                                        /*@ payload-verbatim */
 {
     binson_value bval;
     bval.bytes_value.bptr = pbuf;
@@ -183,6 +239,14 @@ bool binson_parser_to_writer(binson_parser *parser, binson_writer *writer)
 }
 
 bool binson_write_raw(binson_writer *writer, const uint8_t *data, size_t length)
+VC_REQUIRES(VC_W_PTRS(writer) && length <= VC_MAX_BUF && VC_FRESH(data, length))
+VC_ASSIGNS(VC_W_FRAME_PIECE(writer, length))
+VC_ENSURES(VC_W_SAME_CONFIG(writer))
+VC_ENSURES(VC_W_POST_COUNTER(writer, VC_OLD(writer->buffer_used), length))                       /*@ counter-exact */
+VC_ENSURES(VC_W_POST_ERROR(writer, VC_OLD(writer->buffer_used), VC_OLD(writer->error_flags), length)) /*@ range-iff */
+VC_ENSURES(VC_RET == (writer->error_flags == BINSON_ERROR_NONE))                                  /*@ ret-iff-no-error */
+VC_ENSURES((writer->error_flags == BINSON_ERROR_NONE && vc_j < length) ==>
+           writer->buffer[VC_OLD(writer->buffer_used) + vc_j] == data[vc_j])                      /*@ payload-verbatim */
 {
     if (NULL == writer) {
         return false;
